@@ -101,12 +101,21 @@ def run(ctx):
         except hir.Unrecognised as u:
             ctx.unrecognised("M-TYPST", "_brackets_str %s" % v, u.what)
             continue
+        got_name = None
         if leaf["k"] == "Path" and leaf["path"].get("res") == "def":
             brk[v] = tuple(const_value(f, leaf["path"]["def"]))
+            got_name = leaf["path"]["def"].rsplit("::", 1)[-1]
         elif leaf["k"] == "Tup" and all(strip(x)["k"] == "Lit" for x in leaf["elems"]):
             brk[v] = tuple(strip(x)["lit"]["v"] for x in leaf["elems"])
+            got_name = brk[v]
         else:
             ctx.unrecognised("M-TYPST", "_brackets_str %s" % v, "selected leaf is not a constant pair")
+            continue
+        # which pair a variant gets is part of the reviewed markup: the two sets their own, every other compound the compound pair, statements
+        # the statement pair, atoms none (automut: `Compound => BRACKETS_COMPOUND` -> `Statement => BRACKETS_COMPOUND` shadows the next arm)
+        want_name = "BRACKETS_EXT_SET" if v == "SetExtension" else "BRACKETS_INT_SET" if v == "SetIntension" else \
+            {"Compound": "BRACKETS_COMPOUND", "Statement": "BRACKETS_STATEMENT", "Atom": ("", "")}.get(cat.get(v))
+        ctx.ob("M-TYPST", "_brackets_str %s -> %s" % (v, want_name), got_name == want_name, "selects %s" % (got_name,))
     for c in ("Atom", "Compound", "Statement"):
         seen = {}
         for v in st:
